@@ -133,11 +133,21 @@ def rule_construction(ctx):
     ctx.analysed(nxt)
     s0 = [s for s in walk_no_defs(init.node) if isinstance(s, ast.Assign) and is_self_attr(s.targets[0], "_next")]
     ctx.ob("IdGenerator starts so that the first id is 1", len(s0) == 1 and norm.text(s0[0].value) == "0", f"{[norm.text(s.value) for s in s0]}", init.loc())
+    # cell-wise (sa.core.tiny) over the stored counter: next() returns and stores the successor, 1 after 2^53
+    from ..core.tiny import Tiny, Sym
     body = [s for s in nxt.node.body if not (isinstance(s, ast.Expr) and isinstance(s.value, ast.Constant))]
-    ok = len(body) == 3 and isinstance(body[0], ast.AugAssign) and norm.text(body[0]) == "self._next += 1" and isinstance(body[1], ast.If) and \
-        norm.atoms(body[1].test, True) == [("lt", ("c", 2 ** 53), ("e", "self._next"), True)] and norm.text(body[1].body[0]) == "self._next = 1" and \
-        norm.text(body[2]) == "return self._next"
-    ctx.ob("IdGenerator.next: pre-increment, wrap to 1 after 2^53, return", ok, "id sequence changed", nxt.loc())
+    bad = []
+    try:
+        for cur in (0, 1, 41, 2 ** 53 - 1, 2 ** 53):
+            t = Tiny({"self": Sym("generator"), "self._next": cur}, default_call=lambda f_, a_, k_=None: Sym(f"<{f_}>"))
+            r = t.run(body)
+            want = cur + 1 if cur + 1 <= 2 ** 53 else 1
+            stored = t.env.get("self._next", t.env["self"].attrs.get("_next"))
+            if r != ("return", want) or stored != want:
+                bad.append(f"counter {cur}: returns {r[1] if r[0] == 'return' else r}, stores {stored}, expected {want}")
+    except AnalysisError as e:
+        raise AnalysisError(f"[C04.1-request-construction] IdGenerator.next outside the modelled subset: {e}")
+    ctx.ob("IdGenerator.next: pre-increment, wrap to 1 after 2^53, return", not bad, "id sequence changed: " + "; ".join(bad[:2]), nxt.loc())
     bs = ctx.program.cls("autobahn.wamp.protocol.BaseSession").methods["__init__"]
     ctx.ob("each session owns its own IdGenerator", any(isinstance(s, ast.Assign) and is_self_attr(s.targets[0], "_request_id_gen") and norm.text(s.value) == "IdGenerator()" for s in walk_no_defs(bs.node)),
            "generator not per session", bs.loc())
@@ -267,7 +277,11 @@ def rule_remove_then_complete(ctx):
         ctx.ob(f"RESULT: `{stmt_key(n.ast)[:50]}` only for a non-progressive RESULT", ("truth", "msg.progress", None, False) in (mf.at(n) or ()),
                "a RESULT flagged progress can remove the call record / complete the call (e.g. when the call has no on_progress handler): "
                "the call ends with a partial result and its real final RESULT becomes a protocol violation", om.fn.loc(n.ast))
-    cb = [(n, c) for n in prog for c in node_calls(n) if call_name(c) == "txaio.as_future" and c.args and norm.text(c.args[0]) == "call_request.options.on_progress"]
+    # the handler is identified by its canonical definition (read through `call_request.options` or a local alias of it)
+    from .common import local_canon, canon_text
+    _cn = local_canon(om.fn)
+    HANDLER = canon_text(om.fn, ast.parse("call_request.options.on_progress", mode="eval").body, _cn)
+    cb = [(n, c) for n in prog for c in node_calls(n) if call_name(c) == "txaio.as_future" and c.args and canon_text(om.fn, c.args[0], _cn) == HANDLER]
     ctx.ob("RESULT progress: delivered to the on_progress handler of the call with this request id", len(cb) == 2 and
            any(norm.text(s.ast.value) == "self._call_reqs[msg.request]" for s in nodes if s.kind == "stmt" and isinstance(s.ast, ast.Assign) and norm.text(s.ast.targets[0]) == "call_request"),
            "progress delivery changed", om.fn.loc())
@@ -329,6 +343,13 @@ def rule_optional_payload(ctx):
     ctx.require(count >= 10, f"only {count} uses of msg.args/msg.kwargs found")
     # CallRequest.options is Optional as well (call() without options): every read of one of its attributes needs the guard
     n_opt = 0
+    # the options object may be read through a local alias (`call_opts = call_request.options`): identified by canonical definition
+    cn_om = local_canon(om.fn)
+    OPT = canon_text(om.fn, ast.parse("call_request.options", mode="eval").body, cn_om)
+    aliases = {"call_request.options"} | {nm for nm, d in cn_om.items() if (norm.text(d) or "") == OPT or canon_text(om.fn, d, cn_om) == OPT}
+
+    def is_opt(e):
+        return norm.text(e) in aliases or canon_text(om.fn, e, cn_om) == OPT
     for n in om.arm_nodes("Result"):
         facts = om.mf.at(n) or ()
         from ..core.cfg import node_exprs
@@ -340,13 +361,13 @@ def rule_optional_payload(ctx):
             for x in ast.walk(e):
                 if isinstance(x, ast.BoolOp) and isinstance(x.op, ast.And):
                     for i, v in enumerate(x.values):
-                        if norm.text(v) == "call_request.options":
+                        if is_opt(v):
                             for later in x.values[i + 1:]:
                                 guarded_here |= {id(y) for y in ast.walk(later)}
             for x in ast.walk(e):
-                if isinstance(x, ast.Attribute) and norm.text(x.value) == "call_request.options" and isinstance(x.ctx, ast.Load):
+                if isinstance(x, ast.Attribute) and is_opt(x.value) and isinstance(x.ctx, ast.Load):
                     n_opt += 1
-                    ok = ("truth", "call_request.options", None, True) in facts or id(x) in guarded_here
+                    ok = any(("truth", a_, None, True) in facts for a_ in aliases | {OPT}) or id(x) in guarded_here
                     ctx.ob(f"RESULT: `{norm.text(x)}` read only when the call has options [{stmt_key(n.ast)[:40]}]", ok,
                            "call() without CallOptions stores options=None: this read raises AttributeError out of onMessage (a router sending an "
                            "unrequested progressive RESULT closes the transport and fails every pending request)", om.fn.loc(x))
